@@ -379,6 +379,7 @@ var reHugeInt = regexp.MustCompile(`\d{10,}`)
 var rePlaceholder = regexp.MustCompile(`%[-+0# ]*\d*(\.\d*)?[a-zA-Z]`)
 var reUnconditionalJoin = regexp.MustCompile("(?i)\\bFROM\\s+[^\\s,]+(\\s+\\w+)?\\s*,|CROSS\\s+JOIN")
 var reSourceStmt = regexp.MustCompile(`(?i)(^|;)\s*SOURCE\b`)
+var rePreparedExecute = regexp.MustCompile(`(?is)\bPREPARE\s+(\w+)\s+FROM\s+'[^']*\bEXECUTE\b`)
 
 // a frame offset is clamped to the partition: `9223372036854775807 FOLLOWING` names no amount of work
 var reFrameOffset = regexp.MustCompile(`(?i)\d+\s+(PRECEDING|FOLLOWING)`)
@@ -448,6 +449,9 @@ func judge(j *job, r result) (laws []string, notes []string) {
 			return []string{"runtime_fatal:udf_recursion"}, nil
 		case nStmt >= 10 && usesSource:
 			return []string{"runtime_fatal:source_nesting"}, nil
+		case nStmt >= 10 && rePreparedExecute.MatchString(j.program()):
+			// a prepared statement whose text executes the statement itself (PREPARE st FROM 'EXECUTE st'; EXECUTE st)
+			return []string{"runtime_fatal:prepared_self_execution"}, nil
 		case j.SmallLimit:
 			return nil, []string{"observed:run_under_the_small_limit_did_not_show_the_nesting(not a law)"}
 		}
@@ -988,8 +992,17 @@ func run(seed int64, n int, dir string, _ []string) {
 			jobs = append(jobs, cj...)
 		}
 		if done == 0 {
+			// every function × every argument count through SQL text, in-process (gen_arity.go); fatal outcomes are confirmed on the binary
+			jobs = append(jobs, arityGrid(o, seed)...)
 			jobs = append(jobs, corpusJobs()...)
 			jobs = append(jobs, knownFindingJobs()...)
+			if os.Getenv("VERIF_TIER") == "thorough" {
+				jobs = append(jobs, thoroughKnownFindingJobs()...)
+			}
+			// small deterministic grids, unsliced (gen_roles.go)
+			jobs = append(jobs, fieldsGridJobs()...)
+			jobs = append(jobs, preparedJobs()...)
+			jobs = append(jobs, roleJobs()...)
 		}
 		// the deterministic grids: one slice per round (it rotates with seed + round; the rounds of a thorough run
 		// cover every slice several times), every kind of job of a grid in every slice
@@ -1063,6 +1076,13 @@ func run(seed int64, n int, dir string, _ []string) {
 					laws = append(laws, "nonrectangular:"+why)
 				}
 				o.Count("inprocess_rect_probe")
+			}
+			if j.Group == "arity" {
+				if len(laws) > 0 {
+					o.Count("arity_confirmed")
+				} else {
+					o.Count("arity_unconfirmed:" + strings.TrimPrefix(j.Tags[2], "arity_candidate:"))
+				}
 			}
 			if j.Group == "inproc" {
 				if len(laws) > 0 {
